@@ -34,6 +34,9 @@ def nsInitLayers (g : G) : M G := do
   let sources := g.nodeIds.filter fun n => (g.node n).ins.isEmpty
   go (g.nodes.size + g.edges.size + 2) sources unseen g
 
+/-- one iteration of `for n := range treeNodes { n.Layer += d }` -/
+def shiftStep (d : Int) (g : G) (n : Nat) : G := setLayer g n (g.layerOf n + d)
+
 structure TTSt where
   g : G
   visE : List Nat
@@ -142,7 +145,7 @@ def feasibleTree (g : G) : M NS := do
         let e ← incidentNonTreeEdge g treeNodes
         let d := if treeNodes.contains (g.edge e).dst then -(slackE g e) else slackE g e
         -- `for n := range treeNodes { n.Layer += d }` : order independent (FoldPermAndRank.shift_order_irrelevant)
-        let g := treeNodes.foldl (fun g n => setLayer g n (g.layerOf n + d)) g
+        let g := treeNodes.foldl (shiftStep d) g
         rounds fuel g
   let g ← rounds (g.nodes.size + 2) g
   let s ← setStreeValues { g, lim := #[], low := #[] }
